@@ -25,7 +25,7 @@ pub fn leaves() -> Vec<Dyn> {
         Dyn::f64(1.5),
         Dyn::Seq(vec![]),
         Dyn::Map(vec![]),
-        Dyn::Variant { enum_name: "E".into(), index: 0, variant: "Uv".into(), val: VarVal::Unit },
+        Dyn::Variant { enum_name: "E".into(), index: 0, variant: "UnitVar".into(), val: VarVal::Unit },
         Dyn::UnitStruct("Us".into()),
         Dyn::Char('c'),
         Dyn::s(""),
@@ -342,6 +342,9 @@ pub fn run(ctx: &Ctx) -> i32 {
         }
     }
     extra.push(SerOpts { custom_anchor: true, ..SerOpts::default() });
+    // a small fold width: every string and variant name longer than 4 characters is a block-scalar candidate
+    extra.push(SerOpts { wrap: 1, ..SerOpts::default() });
+    extra.push(SerOpts { wrap: 1, indent: 3, compact: true, ..SerOpts::default() });
     let small: Vec<&Dyn> = by.iter().take(ctx.tier.pick(4, 5)).flatten().collect();
     let total = small.len() as u64 * extra.len() as u64;
     let a = run_indexed(&p, total, |i| Some(Case { val: small[(i / extra.len() as u64) as usize].clone(), opts: extra[(i % extra.len() as u64) as usize] }));
